@@ -44,6 +44,7 @@ RULE = (
     "current inside its window (or fail with the storage's own lookup error when the file/key was deleted under it), and after "
     "quiescence every lookup is checked strictly again (current source, repeatable, capacity); non-trivial there = a source "
     "change landed strictly inside an operation's invoke/return window."
+    " Every third lookup passes a template-level global that no template reads (a new value each time): the lookup must behave exactly like one without globals."
 )
 ASSUMPTIONS = [
     "the reference cache model (LRU of (loader, name) with touch-on-lookup, evict-oldest-on-insert, hit requires not auto_reload or up-to-date) states the documented behaviour",
@@ -355,15 +356,22 @@ class Model:
     evictions = 0
 
 
+OBS = [0]  # observations made in this run (reset per run); every third lookup passes template-level globals
+
+
 def _observe(env, names, fs):
     """get/select + render -> observed outcome."""
     import jinja2
 
+    OBS[0] += 1
+    # documented: globals given for an already cached template are merged into it; a name no template reads, a new
+    # value each time - the lookup itself must behave exactly like one without globals
+    g_ = {"zz_unused": OBS[0]} if OBS[0] % 3 == 0 else None
     try:
         if isinstance(names, str):
-            t = env.get_template(names)
+            t = env.get_template(names, globals=g_)
         else:
-            t = env.select_template(list(names))
+            t = env.select_template(list(names), globals=g_)
         out = t.render(x=7)
     except jinja2.TemplatesNotFound:
         return "notfound", None
@@ -407,6 +415,7 @@ def run_concurrent(tape) -> Outcome:
     import jinja2
 
     out = Outcome()
+    OBS[0] = 0
     kind = CONC_KINDS[tape.draw(len(CONC_KINDS))]
     auto_reload = tape.draw(4) != 0
     size = SIZES[tape.draw(len(SIZES))]
@@ -607,6 +616,7 @@ def run(tape) -> Outcome:
             if gc_was:
                 gc.enable()
     out = Outcome()
+    OBS[0] = 0
     kind = KINDS[tape.draw(len(KINDS))]
     auto_reload = not bool(tape.draw(2))
     size = SIZES[tape.draw(len(SIZES))]
